@@ -22,18 +22,33 @@ impl Utf8Accum {
 //@ pub closed spec fn pending(&self) -> Seq<u8> {
 //@     if self.expected > 0 { self.buffer@.subrange(0, self.partial as int) } else { Seq::empty() }
 //@ }
-//@ /// representation invariant
-//@ pub closed spec fn wf(&self) -> bool {
-//@     self.expected > 0 ==> (1 <= self.partial < 4 && self.partial + self.expected == lead_width(self.buffer@[0])
+//@ /// representation invariant, index part: the octet counters stay inside the 4-byte buffer
+//@ pub closed spec fn wf_idx(&self) -> bool {
+//@     self.expected > 0 ==> (1 <= self.partial < 4 && self.partial + self.expected <= 4)
+//@ }
+//@ /// representation invariant, UTF-8 part: the pending octets are a proper prefix of a well-formed scalar
+//@ pub closed spec fn wf_seq(&self) -> bool {
+//@     self.expected > 0 ==> (self.partial >= 1 && self.partial + self.expected == lead_width(self.buffer@[0])
 //@         && pending_ok(self.buffer@.subrange(0, self.partial as int)))
 //@ }
+//@ pub open spec fn wf(&self) -> bool { self.wf_idx() && self.wf_seq() }
     pub fn push_byte(&mut self, byte: u8) -> Option<&str> {
 //@ requires old(self).wf(),
-//@ ensures final(self).wf(),
-//@     final(self).pending() == acc_step(old(self).pending(), byte).0,   // [C02,C04,C17]
-//@     (r is Some) == (acc_step(old(self).pending(), byte).1 is Some),   // [C02,C04,C17]
-//@     r is Some ==> r.unwrap().spec_bytes() == acc_step(old(self).pending(), byte).1.unwrap(),  // [C02,C04,C17]
+//@ ensures
+//@     final(self).wf_idx(),   // [C03]
+//@     final(self).wf_seq(),   // [C02]
+//@     // soundness: whatever is handed out is one well-formed scalar
 //@     r is Some ==> r.unwrap()@.len() == 1 && valid_utf8(r.unwrap().spec_bytes()),  // [C02]
+//@     // exact behaviour on every byte, malformed input included: invalid octets are dropped together with
+//@     // the pending ones and a following lead/ASCII byte restarts
+//@     final(self).pending() == acc_step(old(self).pending(), byte).0,   // [C02]
+//@     (r is Some) == (acc_step(old(self).pending(), byte).1 is Some),   // [C02]
+//@     r is Some ==> r.unwrap().spec_bytes() == acc_step(old(self).pending(), byte).1.unwrap(),  // [C02]
+//@     // completeness on well-formed input: every octet that continues a well-formed scalar is accepted and
+//@     // the last one yields the scalar
+//@     good_step(old(self).pending(), byte) ==> final(self).pending() == acc_step(old(self).pending(), byte).0
+//@         && (r is Some) == (acc_step(old(self).pending(), byte).1 is Some)
+//@         && (r is Some ==> r.unwrap().spec_bytes() == acc_step(old(self).pending(), byte).1.unwrap()),  // [C04,C17]
         // Plain and stupid utf-8 validation
         // Bytes are supposed to be human input so it's okay to be not blazing fast
 
@@ -81,7 +96,7 @@ impl Utf8Accum {
                 if self.expected == 0 {
                     let len = self.partial as usize;
 //@ proof {
-//@     lemma_complete_scalar_valid(self.buffer@.subrange(0, len as int));
+//@     lemma_complete_scalar_valid(self.buffer@.subrange(0, len as int));   // [C02]
 //@ }
                     // SAFETY: we checked previously that buffer contains valid utf8
                     unsafe {
